@@ -36,11 +36,13 @@ Definition cell0 : cell := {| cval := None; cdb := None; rbit := false; wbit := 
 Inductive ev :=
 | Read (a : nat) (ext : val)       (* obj.a ; ext = the column's current database value, used only if a is not loaded yet (lazy) *)
 | Write (a : nat) (v : val)        (* obj.a = v *)
-| Load (a : nat) (v : val).        (* one column of a re-fetched row arrives with value v *)
+| Load (a : nat) (v : val)         (* one column of a re-fetched row arrives with value v *)
+| Flush (exts : list (nat * val)). (* the session flushes its pending writes (a query after an own write, or commit()): one UPDATE with the
+                                      optimistic criteria; exts = the row's current values in the database, per attribute *)
 
 Inductive tev := TObs (a : nat) (v : val) | TWrite (a : nat) (v : val).
 
-Record state := { cells : nat -> cell; failed : bool (* ended in UnrepeatableReadError *); trace : list tev (* newest first *) }.
+Record state := { cells : nat -> cell; failed : bool (* ended in UnrepeatableReadError (or OptimisticCheckError of an own flush) *); trace : list tev (* newest first *) }.
 Definition init : state := {| cells := fun _ => cell0; failed := false; trace := [] |}.
 
 Definition opt_val_eqb (x : option val) (y : val) : bool := match x with Some o => val_eqb o y | None => false end.
@@ -51,9 +53,25 @@ Definition load_cell (vol : bool) (c : cell) (v : val) : option cell :=
   else if negb vol && rbit c then None
   else Some {| cval := if negb vol && wbit c then cval c else Some v; cdb := Some v; rbit := rbit c; wbit := wbit c |}.
 
+(* Entity._save_updated_ after a successful UPDATE: `obj._rbits_ |= obj._wbits_ & obj._all_bits_except_volatile_; obj._wbits_ = 0`
+   and _update_dbvals_: the written attributes get dbval = the written value (a volatile one is forgotten: it will be loaded again);
+   attributes that were read but not written KEEP their read bit. *)
+Definition flush_cell (vol : bool) (c : cell) : cell :=
+  if wbit c then (if vol then {| cval := None; cdb := None; rbit := rbit c; wbit := false |}
+                  else {| cval := cval c; cdb := cval c; rbit := true; wbit := false |})
+  else c.
+(* the optimistic criteria of that UPDATE (C20): every attribute with a read bit must still have its dbval in the database *)
+Definition flush_check (vol : nat -> bool) (s : state) (exts : list (nat * val)) : bool :=
+  forallb (fun p => let c := cells s (fst p) in negb (rbit c && negb (vol (fst p))) || opt_val_eqb (cdb c) (snd p)) exts.
+
 Definition step (vol : nat -> bool) (s : state) (e : ev) : state :=
   if failed s then s else
   match e with
+  | Flush exts =>
+      if negb (existsb (fun p => wbit (cells s (fst p))) exts) then s             (* nothing to write: no statement *)
+      else if flush_check vol s exts
+           then {| cells := fun a => flush_cell (vol a) (cells s a); failed := false; trace := trace s |}
+           else {| cells := cells s; failed := true; trace := trace s |}          (* OptimisticCheckError: also loud *)
   | Load a v =>
       match load_cell (vol a) (cells s a) v with
       | Some c => {| cells := upd (cells s) a c; failed := false; trace := trace s |}
